@@ -1,5 +1,6 @@
 import FitModel.Items
 import FitModel.Gen.Profile
+import FitProofs.Framing
 /-!
   C12 — timestamps follow the FIT time rules, including compressed headers.
 
@@ -150,5 +151,23 @@ theorem no_reference_skips (P : Profile) (hb : Nat) (fs dev : List Bytes) (st : 
 
 /-- non-vacuity: reference 1000 (low bits 8), offset 12 → 1004; offset 3 → 1027 (rollover). -/
 example : tsSpec 1000 12 = 1004 ∧ tsSpec 1000 3 = 1027 ∧ tsAdvance 1000 8 3 = 1027 := by decide
+
+/-- **Framing (byte parser = record machine).** On the serialisation of any list of items that fit
+    the definitions live when they are reached, the byte-level record loop of the decoder arrives
+    at exactly the state the record machine `stepItems` computes (and at the loop over whatever
+    follows), or stops with the same error class. The theorems of this file about the record machine
+    are therefore theorems about the decoder on every such stream. -/
+theorem byte_parser_is_record_machine (P : Profile) (limit : Nat) (cont : DecSt → DP) (its : List Item) (fuel : Nat)
+    (st : DecSt) (n : Nat) (s : SpecSt) (tail : Bytes) (hfit : ItemsFit P st its)
+    (hs : s.rest = serialize its ++ tail) (hl : n + (serialize its).length ≤ limit) (hn : st.n = n) :
+    match stepItems P st its with
+    | .ok st' =>
+      runSpecD limit (decodeFileData P limit (fuel + its.length) st cont) n s =
+        runSpecD limit (decodeFileData P limit fuel st' cont) (n + (serialize its).length)
+          { s with rest := tail, taken := s.taken + (serialize its).length } ∧ st'.n = n + (serialize its).length
+    | .stop o =>
+      ∃ e, (runSpecD limit (decodeFileData P limit (fuel + its.length) st cont) n s).1 = .inl e ∧
+        e.err = (exitOf o).err :=
+  run_items P limit cont its fuel st n s tail hfit hs hl hn
 
 end Fit.Props.C12
